@@ -977,11 +977,22 @@ func recoverDrive(r *rand.Rand, tier string, tr *trace.Buf) {
 	if tier == "thorough" {
 		nd = 40
 	}
-	for q := 0; q < nd; q++ {
-		fresh := q%2 == 1
+	// after the nd sampled keys: 128 keys whose seeds together contain EVERY word of the list (seed k holds the
+	// 12-bit groups 32k .. 32k+31), re-created from their mnemonic
+	const cover = 128
+	for q := 0; q < nd+cover; q++ {
+		fresh := q%2 == 1 && q < nd
 		var d *dilithium.Dilithium
 		var err error
-		if fresh && q%4 == 3 {
+		if q >= nd {
+			ws := make([]int, 32)
+			for j := range ws {
+				ws[j] = 32*(q-nd) + j
+			}
+			var seed [48]uint8
+			copy(seed[:], wordsToBytes(ws))
+			d, err = dilithium.NewDilithiumFromSeed(seed)
+		} else if fresh && q%4 == 3 {
 			// the entropy source fails once (some bytes, then an error) and works afterwards; the caller asks
 			// again until it gets a key: whatever key it gets must be recoverable from what it exports
 			orig := crand.Reader
@@ -1019,7 +1030,11 @@ func recoverDrive(r *rand.Rand, tier string, tr *trace.Buf) {
 		seed := d.GetSeed()
 		hexs := d.GetHexSeed()
 		mn := d.GetMnemonic()
-		for _, route := range []string{"seed", "hexseed", "mnemonic"} {
+		routes := []string{"seed", "hexseed", "mnemonic"}
+		if q >= nd {
+			routes = []string{"mnemonic"}
+		}
+		for _, route := range routes {
 			var y *dilithium.Dilithium
 			res := call(func() {
 				var e error
